@@ -11,7 +11,7 @@ import (
 )
 
 func init() {
-	register(&core.Rule{ID: "CRDT-DECISION", Props: []string{"C12"}, Floor: 15,
+	register(&core.Rule{ID: "CRDT-DECISION", Props: []string{"C12", "C13"}, Floor: 15,
 		Doc: "decision table of the CRDT value types: a merge stores the other replica's entry exactly when this replica has none or a smaller one (max / later timestamp), the clock comparison's verdict machine (EQ -> GT/LT -> CC), add-wins visibility in AWORSet Read/Merge, last-writer-wins membership in LWWSet, a set write clears the element from the opposite map when it supersedes it",
 		Run: runCRDTDecision})
 }
